@@ -1,11 +1,26 @@
+//! API-group monitors. One module per property; `dbutil` is shared plumbing.
+//!   C37 -> c37.rs   coins-to-spend answers are sound
+//!   C38 -> c38.rs (+ c38_e2e.rs)   cursor pagination enumerates every entry exactly once
+//! (C36 and C45 are added as further modules; register them in the `match` below.)
+
 use vcommon::*;
+
+mod c37;
+mod c38;
+mod c38_e2e;
+pub mod dbutil;
 
 fn main() {
     let args = Args::parse();
     install_quiet_panic_hook();
     let report = Report::new(&args.property);
-    match args.property.as_str() {
-        other => report.inconclusive(format!("property {other} not implemented in this monitor")),
-    }
-    report.finish(&args, "exploration", "", false, &[]);
+    let (rule, exhaustive, assumptions): (&str, bool, Vec<&str>) = match args.property.as_str() {
+        "C37" => c37::run(&args, &report),
+        "C38" => c38::run(&args, &report),
+        other => {
+            report.inconclusive(format!("property {other} not implemented in this monitor"));
+            ("", false, vec![])
+        }
+    };
+    report.finish(&args, "exploration", rule, exhaustive, &assumptions);
 }
